@@ -217,8 +217,17 @@ impl Obs {
         for b in bc.blocks.values() {
             ids.insert(b.id);
         }
+        // ids to probe: a contiguous range around the stored blocks when ids are sane, otherwise
+        // (a stored block with an extreme id) the stored ids and the range up to the tip
         let maxid = ids.iter().max().cloned().unwrap_or(0).max(o.tip_id);
-        for id in 0..=maxid + 1 {
+        let probe: Vec<u64> = if maxid < 1_000_000 {
+            (0..=maxid + 1).collect()
+        } else {
+            let mut v: BTreeSet<u64> = ids.clone();
+            v.extend(0..=o.tip_id.min(1_000_000).saturating_add(1));
+            v.into_iter().collect()
+        };
+        for id in probe {
             if let Some(h) = bc.blockring.get_longest_chain_block_hash_at_block_id(id) {
                 o.lc_index.push((id, h));
             }
